@@ -55,8 +55,56 @@ def run(ctx, run):
     _pattern_row_moves(ctx, run)
     _debug_after_geometry(ctx, run)
     _payload_once(ctx, run)
+    _constructor_reads_own_writes(ctx, run, P.need("vbi3_bit_slicer_set_params", BS))
     from .. import sweep
     sweep.run(ctx, run, ["src/raw_decoder.c", "src/bit_slicer.c", "src/decoder.c", "src/sampling_par.c"], SWEEP_TRUSTED, 110, 1)
+
+def _constructor_reads_own_writes(ctx, run, f):
+    """vbi3_bit_slicer_set_params() configures *bs from its arguments alone: a field of *bs it reads has been stored
+    on every path to the read (else the value is the one the previous configuration left - e.g. the sample size of
+    another pixel format in the byte offset of the first sample)."""
+    run.touch(f)
+    REC = "_vbi3_bit_slicer"
+    stores = {}
+    for bid, i in flow.all_events(f):
+        for lhs, var, op, rhs in flow.stores(f, i):
+            if lhs is None:
+                continue
+            l = f.exprs[ex.skip(f, lhs)]
+            if l["k"] == "mem" and l.get("in") == REC and op == "=":
+                stores.setdefault(l["member"], set()).add(bid)
+    pos = flow.elem_pos(f)
+    store_targets = set()
+    for bid, i in flow.all_events(f):
+        for lhs, var, op, rhs in flow.stores(f, i):
+            if lhs is not None and op == "=":
+                store_targets.add(ex.skip(f, lhs))
+    n = 0
+    reach = f.reachable_blocks()
+    for node, e in enumerate(f.exprs):
+        if e["k"] != "mem" or e.get("in") != REC or e["member"] in ("log",) or node in store_targets:
+            continue
+        if node not in pos or pos[node][0] not in reach:
+            continue
+        # address-of (passing &bs->log and the like) is not a read
+        m = e["member"]
+        bid, k = pos[node]
+        n += 1
+        before = any(ex.skip(f, lhs) != node and f.exprs[ex.skip(f, lhs)]["k"] == "mem" and f.exprs[ex.skip(f, lhs)]["member"] == m
+                     for j in f.blocks[bid].elems[:k] if flow.is_event(f, j) for lhs, var, op, rhs in flow.stores(f, j) if lhs is not None)
+        ok = before or bid not in flow.reach_from(f, f.entry, avoid=stores.get(m, set()) - {bid})
+        if not ok and bid in stores.get(m, set()):
+            ok = False
+        key = "RF-INIT:vbi3_bit_slicer_set_params:reads-own-write:%s" % m
+        if ok:
+            run.holds("RF-INIT", key, "bs->%s is read only after this call stored it" % m, ex.loc(f, node), nontrivial=False)
+        else:
+            run.violation("RF-INIT", key, "bs->%s is read at a point some path reaches before this call has stored it: the value is "
+                          "the one the previous vbi3_bit_slicer_set_params() left (0 on a fresh slicer) - e.g. the sample size of the "
+                          "previously configured pixel format in the byte offset of the first sample" % m, ex.loc(f, node),
+                          witness={"function": f.name, "field": m})
+    run.floor("reads of slicer fields inside vbi3_bit_slicer_set_params", n, 2)
+
 
 def _payload_once(ctx, run):
     """The slicers copy the payload in one of the formats bs->endian selects.  Each case of that switch
